@@ -37,6 +37,19 @@ CHECKS['C15'] = {
     'technique': 'deterministic simulation with fault injection: enumerated sink-break / refusal / bad-byte / error points per seeded scenario, history oracles',
 }
 
+CHECKS['C16'] = {
+    'level': 'exploration',
+    'text': ('Seeded search over histories and thread interleavings against the oracle "the same operation alone in a pristine interpreter" (a forked copy of a harness process '
+             'that never runs a query). Part A: histories of 1-6 operations through query_table, engine.query, query_csv, query_dataframe and the in-process CLI, mixing successes '
+             'of every kind with parse, syntax, runtime and IO failures, plus the module-level debug flags after every operation. Part B: 2-3 queries of different kinds over tables '
+             'of <= 4 records in real threads under a baton scheduler; the seeded picks list decides who runs at every get_record / write / set_header / finish / registry call and, '
+             'in a fraction of runs, at every N-th source line of rbql_engine. Sampling of schedules, not exhaustive enumeration.'),
+    'design_ref': 'DESIGN.md 3.5',
+    'note': ('Trusted: the tree run alone as reference (self-differential), fork() giving an identical pristine interpreter. Pre-emption granularity: seam calls and source lines, '
+             'not bytecodes. Python engine only (the JS module-global context is a documented limitation outside the claim).'),
+    'technique': 'deterministic simulation: baton-scheduled real threads with seeded explicit schedules + seeded operation histories, differential vs pristine-interpreter run',
+}
+
 NOT_APPLICABLE = {
     'C01': 'pure function of (query text, table): no stream schedule, interleaving, history or fault in the statement, nothing for a simulator to own',
     'C03': 'aggregate values are a pure function of the group records in input order; accumulator state never meets a seam',
@@ -54,7 +67,7 @@ NOT_APPLICABLE = {
     'C19': 'JS engine vs reference semantics is a pure differential statement; its last clause (caller arrays unmodified) is observed by the C06 JS workload',
 }
 
-PENDING = {pid: 'check not built yet in this commit (simulation target, planned in DESIGN.md section 3); not claimed until its check exists' for pid in ('C02', 'C06', 'C16', 'C20')}
+PENDING = {pid: 'check not built yet in this commit (simulation target, planned in DESIGN.md section 3); not claimed until its check exists' for pid in ('C02', 'C06', 'C20')}
 
 
 def main():
